@@ -1,13 +1,45 @@
-(* TrackerInc2.v -- T2 for C17 (state trackers) on the STAGE-2 engine model (Engine2.v).
-   Method.  The engine model does not contain the trackers.  Section 1 gives an INSTRUMENTED copy (monad W = state, error and
-   a writer of tracker calls) of exactly those engine functions on whose path Python calls
+(* TrackerInc2.v -- T2 for C17 (state trackers equal the true configuration) on the STAGE-2 engine model (Engine2.v): routers,
+   reneging and jockeying, priority pre-emption (resume / restart / resample / reroute), server schedules, slotted services,
+   class change while waiting.  Partial correctness: nothing is said about runs in which the model returns Err / OutOfFuel.
+
+   Method.  The engine model does not contain the trackers.  Section 1 is an INSTRUMENTED copy (monad W = state, error and a
+   writer of tracker calls) of exactly those engine functions on whose path Python calls
    self.simulation.statetracker.change_state_*: every call-free statement is the engine's own statement lifted with `up`,
-   every Python call site is an `emit`.  Section 2 proves, function by function, that erasing the calls gives back the engine
-   function (er_event_step: er (event_stepW cf s) = event_step cf s), so
-       calls_event_step cf s  :=  the calls event_stepW emits
-   is a ghost function of the REAL engine run.  Section 3 is a small Hoare logic over W for the family of measures
-   "number of customers in the queues of node j", sections 4-5 the theorems, section 6 the closed examples and the
-   refutations (closed witnesses found by vm_compute) for the trackers that look at the blocked flag / the classes. *)
+   every Python call site is an `emit`:  accept -> Acc (last statement, after a nested pre-emption);  block_individual -> Blk
+   (after is_blocked = True);  release -> Rel with the customer's is_blocked (after reset_individual_attributes, before the freed
+   server restarts; also release(reroute=True) reached from preempt / interrupt_service);  renege -> change_state_renege =
+   Rel with blocked = False;  change_customer_class_while_waiting -> Chg (after a possible pre-emption, before previous_class is
+   overwritten).  No call: ExitNode.accept, the arrival node, preempt without reroute, interrupt_service without reroute,
+   begin_interrupted_individuals_service, shift changes, slots.  Section 2 proves, function by function, that erasing the calls
+   gives back the engine function (er_event_step : er (event_stepW cf s) = event_step cf s), so
+       calls_event_step cf s := the calls event_stepW emits      (calls_many for runs)
+   is a ghost function of the REAL engine run (same call type as TrackerInc.v; destination 0 = the exit node).
+
+   Results (every oracle of draws, any number of events):
+   1. EVERY configuration, only invariant Idx (node identities are positions; contained in Conserve2.WFx2; test idx2_b):
+        event_step_trackers2, run_many_trackers2 : SystemPopulation and NodePopulation, folded over the calls, go from the true
+        state to the true state and never raise (Tracked1); never_negative2; run_many_subset_grouped2 (NodePopulationSubset,
+        GroupedNodePopulation, observed nodes / groups without repetition); run_many_rowsums2: the row sums of NaiveBlocking
+        and of NodeClassMatrix are the node populations whenever these trackers do not raise -- also in the regions of the
+        known defects.
+   2. NaiveBlocking.  REFUTED outside a scope, by closed witnesses (new as tracker findings, in the regions of F-02b / F-02a):
+        naive_blocking_refuted_F02b : begin_interrupted_individuals_service clears is_blocked without a tracker call; the tracker
+                                      keeps a stale blocked count and then holds a NEGATIVE count (-1, 3);
+        naive_blocking_refuted_F02a : a blocked customer that is pre-empted (resume) is served and blocked again:
+                                      change_state_block twice for the same blockage, the tracker holds (-1, 2), truth (0, 1).
+      PROVED in the scope scope_int (schedules / capacitated slots non-pre-emptive or `reroute`; excludes F-02b) with the
+      invariants WFx2 [] and NoInt (both preserved) under the hypothesis NextUnbl (candidates of an end of service / a reneging
+      are not blocked, the former are customers of the node; excludes F-02a / F-02c):
+        event_step_naive_blocking2_partial, run_many_naive_blocking2_partial, naive_blocking_never_negative2.
+      _partial: NextUnbl is assumed before every event (NextUnbl_run; executable nextunbl_run_b), NOT shown to be invariant
+      (it is the stage-2 analogue of the NextOk clause of stage 1's Blocking.Who; it needs the server / blocked-flag link).
+      Priority pre-emption of any kind, reneging, jockeying, class changes, reroute are allowed.
+   3. NodeClassMatrix.  REFUTED in the region of F-02a: class_matrix_refuted_F02a (a blocked customer that is pre-empted and
+      served again has previous_class overwritten a second time; change_state_release subtracts at the wrong class: the tracker
+      holds (0, 1, -1) for an empty node).  No in-scope theorem for the per-class counts here (only the row sums, result 1).
+   MatrixBlocking is not covered.
+   Sections: 3 Hoare logic over W for node populations (hoD), 4 the walk, 5 trackers and theorems, 5b-5c frame logic for the
+   blocked flags (calmN) and Hoare logic for the counts of blocked / unblocked customers (hoB), 6 examples and refutations. *)
 From Coq Require Import ZArith List Bool Lia Permutation.
 From RecordUpdate Require Import RecordUpdate.
 From CiwV Require Import Sx Prelude Routing Sched.
@@ -2278,3 +2310,222 @@ Proof.
   - intros obs Hnd. exact (orun_map np_step (sub_step obs) (sub_of obs) (fun a c a' => sub_sim obs a c a' Hnd) _ _ _ T).
   - intros gs Hnd. exact (orun_map np_step (grp_step gs) (grp_of gs) (fun a c a' => grp_sim gs a c a' Hnd) _ _ _ T).
 Qed.
+
+(* ====================================================================================================================
+   6. Examples and refutations
+   ==================================================================================================================== *)
+(* Two nodes, two classes (class 0 has priority over class 1).  Node 1: one server, class 1 customers renege after 3 ticks and
+   leave the system; class 0 goes on to node 2, class 1 too.  Node 2: one server, priority pre-emption with the `reroute`
+   option; class 0 leaves from node 2, class 1 is routed (and rerouted) back to node 1. *)
+Definition tk_cf : config :=
+  mkCfg 2
+    [ mkNcfg None None 0 SFixed 0 true [false; true] 0;
+      mkNcfg None None 0 SFixed 4 false [false; false] 0 ]
+    [0; 1] 2 None
+    [ RtNR [RDirect 2; RLeave]; RtNR [RJockey 2 (-1); RDirect 1] ]
+    [ [None; None]; [None; None] ] false [ [false; false]; [false; false] ].
+Definition tk_srv : server := mkServer 1 None false None 0 None 0 false 0 None.
+Definition tk_node (j : Z) : node :=
+  mkNode j 0 0 [[]; []] [tk_srv] [] 0 None [] (Some 1) 1 [] 0 [] [] [] 0 None 0 None None.
+Definition tk_s0 : sim :=
+  mkSim 1 0 (mkArr 0 0 [[Some 12; Some 1]; [None; None]] 1 1 (Some 1)) [tk_node 1; tk_node 2] [] 0 0 []
+        (mkDraws [] [] [] [] [] []) [] [[0; 0]; [0; 0]].
+(* the draws offered to each event: inter-arrival 7, batch 1, service 10, uniform 0, patience 3 *)
+Definition tk_d : draws := mkDraws [7] [1] [10; 10] [0; 0] [3; 3] [].
+Definition tk_after (k : nat) : sim := match run_many tk_cf tk_s0 (repeat tk_d k) with Ok s => s | _ => tk_s0 end.
+
+Example tk_initial : idx2_b tk_s0 = true.
+Proof. vm_compute. reflexivity. Qed.
+(* the calls of the first 16 events: customer 4 reneges at node 1 (Rel 1 0 4 ..); in the last but one event customer 3 (class 0)
+   leaves node 1 for node 2 and pre-empts customer 2 there, who is rerouted to node 1: Rel 1 2 3, Rel 2 1 2, Acc 1, Acc 2 *)
+Example tk_calls16 :
+  calls_many tk_cf tk_s0 (repeat tk_d 16) =
+  [Acc 1 1; Acc 1 1; Rel 1 2 1 1 false; Acc 2 1; Acc 1 0; Acc 1 1; Rel 1 0 4 1 false; Acc 1 0; Rel 1 2 2 1 false; Acc 2 1;
+   Rel 2 1 1 1 false; Acc 1 1; Acc 1 1; Rel 1 0 1 1 false; Rel 1 0 6 1 false; Acc 1 0; Acc 1 1; Rel 1 2 3 0 false;
+   Rel 2 1 2 1 false; Acc 1 1; Acc 2 0; Rel 1 0 8 1 false].
+Proof. vm_compute. reflexivity. Qed.
+(* folded over these calls the trackers give the true state, computed from the queues *)
+Example tk_fold16 :
+  exists s', run_many tk_cf tk_s0 (repeat tk_d 16) = Ok s' /\
+    map n_queues (nodes s') = [[[5; 7]; [2]]; [[3]; []]] /\ exit_ids s' = [4; 1; 6; 8] /\
+    orun np_step (calls_many tk_cf tk_s0 (repeat tk_d 16)) (np_true tk_s0) = Some [3; 1] /\ np_true s' = [3; 1] /\
+    orun sys_step (calls_many tk_cf tk_s0 (repeat tk_d 16)) (sys_true tk_s0) = Some 4 /\ sys_true s' = 4.
+Proof. eexists. split; [vm_compute; reflexivity|]. vm_compute. repeat split; reflexivity. Qed.
+(* the same by the theorem, for 40 events *)
+Example tk_run40 : exists s', run_many tk_cf tk_s0 (repeat tk_d 40) = Ok s' /\ Tracked1 (calls_many tk_cf tk_s0 (repeat tk_d 40)) tk_s0 s'.
+Proof.
+  destruct (run_many tk_cf tk_s0 (repeat tk_d 40)) as [s'| |] eqn:E; [|vm_compute in E; discriminate|vm_compute in E; discriminate].
+  exists s'. split; [reflexivity|]. exact (proj2 (run_many_trackers2 tk_cf _ _ _ (idx2_b_sound _ tk_initial) E)).
+Qed.
+
+(* ---------- the trackers that look at the blocked flag / the classes drift in the regions of F-02a and F-02b ---------- *)
+Definition x_srv (i : Z) : server := mkServer i None false None 0 None 0 false 0 None.
+Definition x_node (j : Z) (nq : nat) (srv : list server) (c : Z) : node :=
+  mkNode j 0 0 (repeat [] nq) srv [] 0 None [] (Some c) c [] 0 [] [] [] 0 None 0 None None.
+Definition x_nd : draws := mkDraws [] [] [] [] [] [].
+
+(* F-02b (the scenario of Blocking2.fifo_refuted_interrupted_blocked).  Node 1 has two servers until 10, then one, schedule
+   pre-emption `resume`; node 2 has room for one customer.  Customers 3 and 2 are blocked at node 1 when the shift ends; both are
+   interrupted; begin_interrupted_individuals_service resumes customer 2 on the new server and clears its is_blocked flag
+   WITHOUT any call to the state tracker (Python: node.py, begin_interrupted_individuals_service, `ind.is_blocked = False`).
+   NaiveBlocking now holds (0 unblocked, 2 blocked) for node 1, the truth is (1, 1); customer 2 finishes again, node 2 is
+   still full, it is blocked a second time (change_state_block again): the tracker holds (-1, 3). *)
+Definition r4_cf : config :=
+  mkCfg 1
+    [ mkNcfg None None 0 (SSched (mkSched [10; 20] [2; 1] 0 1)) 0 false [false] 0;
+      mkNcfg (Some 1) None 0 SFixed 0 false [false] 0 ]
+    [0] 1 None [ RtNR [RDirect 2; RLeave] ] [ [None; None] ] false [ [false] ].
+Definition r4_n1 : node := mkNode 1 0 0 [[]] [] [] 0 (Some 0) [] (Some 0) 0 [] 0 [] [] [] 1 (Some 0) 0 None None.
+Definition r4_s0 : sim :=
+  mkSim 0 1 (mkArr 0 0 [[Some 1]; [None]] 1 0 (Some 1)) [r4_n1; x_node 2 1 [x_srv 1] 1] [] 0 0 [] x_nd [] [[0; 0]].
+Definition r4_ds : list draws :=
+  [ x_nd; mkDraws [1] [1] [1] [0;0] [] []; mkDraws [1] [1] [5] [0;0] [] []; mkDraws [] [] [100] [0;0] [] [];
+    mkDraws [100] [1] [1] [0;0] [] []; mkDraws [] [] [] [0;0] [] []; mkDraws [] [] [] [0;0] [] []; x_nd; x_nd ].
+Theorem naive_blocking_refuted_F02b :
+  exists cf s0 ds s8 s9,
+    wfx2_b s0 = true /\ nb_true s0 = [[0; 0]; [0; 0]] /\
+    run_many cf s0 (firstn 8 ds) = Ok s8 /\ run_many cf s0 ds = Ok s9 /\
+    (* after 8 events: a stale blocked count *)
+    nb_true s8 = [[1; 1]; [1; 0]] /\ orun nb_step (calls_many cf s0 (firstn 8 ds)) (nb_true s0) = Some [[0; 2]; [1; 0]] /\
+    (* after 9 events: a negative count *)
+    nb_true s9 = [[0; 2]; [1; 0]] /\ orun nb_step (calls_many cf s0 ds) (nb_true s0) = Some [[-1; 3]; [1; 0]] /\
+    (* SystemPopulation / NodePopulation are right all the same *)
+    Tracked1 (calls_many cf s0 ds) s0 s9.
+Proof.
+  exists r4_cf, r4_s0, r4_ds.
+  destruct (run_many r4_cf r4_s0 (firstn 8 r4_ds)) as [s8| |] eqn:E8; [|vm_compute in E8; discriminate|vm_compute in E8; discriminate].
+  destruct (run_many r4_cf r4_s0 r4_ds) as [s9| |] eqn:E9; [|vm_compute in E9; discriminate|vm_compute in E9; discriminate].
+  exists s8, s9. split; [vm_compute; reflexivity|]. split; [vm_compute; reflexivity|]. split; [reflexivity|]. split; [reflexivity|].
+  assert (I0 : Idx r4_s0) by (apply idx2_b_sound; vm_compute; reflexivity).
+  split; [|split; [|split; [|split; [|exact (proj2 (run_many_trackers2 r4_cf _ _ _ I0 E9))]]]].
+  - vm_compute in E8. injection E8 as <-. vm_compute. reflexivity.
+  - vm_compute. reflexivity.
+  - vm_compute in E9. injection E9 as <-. vm_compute. reflexivity.
+  - vm_compute. reflexivity.
+Qed.
+
+(* F-02a.  Two classes, class 0 has priority; node 1: one server, priority pre-emption `resume`; node 2 has room for one
+   customer.  Customer 2 (class 1) is blocked at node 1; customer 3 (class 0) arrives and pre-empts it (decide_preempt looks at
+   every customer with a server, blocked or not); when 3 leaves, 2 is served again, finishes again (in the past), node 2 is
+   still full: block_individual a second time, change_state_block a second time: NaiveBlocking holds (-1, 2), the truth is (0, 1). *)
+Definition a2_cf : config :=
+  mkCfg 2
+    [ mkNcfg None None 0 SFixed 1 false [false; false] 0;
+      mkNcfg (Some 1) None 0 SFixed 0 false [false; false] 0 ]
+    [0; 1] 2 None [ RtNR [RLeave; RLeave]; RtNR [RDirect 2; RLeave] ] [ [None; None]; [None; None] ] false [ [false; false]; [false; false] ].
+Definition a2_s0 : sim :=
+  mkSim 0 0 (mkArr 0 0 [[Some 6; Some 1]; [None; None]] 1 1 (Some 1)) [x_node 1 2 [x_srv 1] 1; x_node 2 2 [x_srv 1] 1] [] 0 0 [] x_nd [] [[0; 0]; [0; 0]].
+Definition a2_ds : list draws :=
+  [ mkDraws [2] [1] [1] [0;0] [] []; mkDraws [] [] [100] [0;0] [] []; mkDraws [100] [1] [1] [0;0] [] []; x_nd;
+    mkDraws [100] [1] [2] [0;0] [] []; x_nd; x_nd ].
+Theorem naive_blocking_refuted_F02a :
+  exists cf s0 ds s7,
+    wfx2_b s0 = true /\ nb_true s0 = [[0; 0]; [0; 0]] /\ run_many cf s0 ds = Ok s7 /\
+    calls_many cf s0 ds = [Acc 1 1; Rel 1 2 1 1 false; Acc 2 1; Acc 1 1; Blk 1 2 2 1; Acc 1 0; Rel 1 0 3 0 false; Blk 1 2 2 1] /\
+    nb_true s7 = [[0; 1]; [1; 0]] /\ orun nb_step (calls_many cf s0 ds) (nb_true s0) = Some [[-1; 2]; [1; 0]] /\
+    Tracked1 (calls_many cf s0 ds) s0 s7.
+Proof.
+  exists a2_cf, a2_s0, a2_ds.
+  destruct (run_many a2_cf a2_s0 a2_ds) as [s7| |] eqn:E7; [|vm_compute in E7; discriminate|vm_compute in E7; discriminate].
+  exists s7. split; [vm_compute; reflexivity|]. split; [vm_compute; reflexivity|]. split; [reflexivity|]. split; [vm_compute; reflexivity|].
+  assert (I0 : Idx a2_s0) by (apply idx2_b_sound; vm_compute; reflexivity).
+  split; [|split; [|exact (proj2 (run_many_trackers2 a2_cf _ _ _ I0 E7))]].
+  - vm_compute in E7. injection E7 as <-. vm_compute. reflexivity.
+  - vm_compute. reflexivity.
+Qed.
+
+(* F-02a, NodeClassMatrix.  Three classes (0 has priority over 1 and 2); at node 1 a class 1 customer becomes class 2 when its
+   service ends.  Customer 2 (class 1) finishes (previous_class 1, customer_class 2), is blocked, is pre-empted by customer 3,
+   is served again and finishes again: change_customer_class overwrites previous_class with 2.  When node 2 lets it in,
+   change_state_release subtracts at previous_class = 2, but the customer was added at class 1: node 1 is empty and the tracker
+   holds (0, 1, -1) for it. *)
+Definition a3_cf : config :=
+  mkCfg 3
+    [ mkNcfg None (Some [[8;0;0];[0;0;8];[0;0;8]]) 0 SFixed 1 false [false; false; false] 0;
+      mkNcfg (Some 1) None 0 SFixed 0 false [false; false; false] 0 ]
+    [0; 1; 1] 2 None [ RtNR [RLeave; RLeave]; RtNR [RDirect 2; RLeave]; RtNR [RDirect 2; RLeave] ]
+    [ [None; None]; [None; None]; [None; None] ] false [ [false; false; false]; [false; false; false]; [false; false; false] ].
+Definition a3_s0 : sim :=
+  mkSim 0 0 (mkArr 0 0 [[Some 6; Some 1; None]; [None; None; None]] 1 1 (Some 1)) [x_node 1 2 [x_srv 1] 1; x_node 2 2 [x_srv 1] 1] [] 0 0 [] x_nd []
+        [[0; 0]; [0; 0]; [0; 0]].
+Definition a3_ds : list draws :=
+  [ mkDraws [2] [1] [1] [0;0] [] []; mkDraws [] [] [100] [0;0] [] []; mkDraws [100] [1] [1] [0;0] [] []; mkDraws [] [] [] [0;0] [] [];
+    mkDraws [100] [1] [2] [0;0] [] []; mkDraws [] [] [] [0;0] [] []; mkDraws [] [] [] [0;0] [] []; mkDraws [] [] [50] [0;0] [] [] ].
+Theorem class_matrix_refuted_F02a :
+  exists cf s0 ds s8,
+    wfx2_b s0 = true /\ cm_true 3 s0 = [[0; 0; 0]; [0; 0; 0]] /\ run_many cf s0 ds = Ok s8 /\
+    calls_many cf s0 ds = [Acc 1 1; Rel 1 2 1 1 false; Acc 2 2; Acc 1 1; Blk 1 2 2 1; Acc 1 0; Rel 1 0 3 0 false; Blk 1 2 2 2;
+                           Rel 2 0 1 2 false; Rel 1 2 2 2 true; Acc 2 2] /\
+    map all_individuals (nodes s8) = [[]; [2]] /\
+    cm_true 3 s8 = [[0; 0; 0]; [0; 0; 1]] /\ orun cm_step (calls_many cf s0 ds) (cm_true 3 s0) = Some [[0; 1; -1]; [0; 0; 1]] /\
+    Tracked1 (calls_many cf s0 ds) s0 s8.
+Proof.
+  exists a3_cf, a3_s0, a3_ds.
+  destruct (run_many a3_cf a3_s0 a3_ds) as [s8| |] eqn:E8; [|vm_compute in E8; discriminate|vm_compute in E8; discriminate].
+  exists s8. split; [vm_compute; reflexivity|]. split; [vm_compute; reflexivity|]. split; [reflexivity|]. split; [vm_compute; reflexivity|].
+  assert (I0 : Idx a3_s0) by (apply idx2_b_sound; vm_compute; reflexivity).
+  split; [|split; [|split; [|exact (proj2 (run_many_trackers2 a3_cf _ _ _ I0 E8))]]].
+  - vm_compute in E8. injection E8 as <-. vm_compute. reflexivity.
+  - vm_compute in E8. injection E8 as <-. vm_compute. reflexivity.
+  - vm_compute. reflexivity.
+Qed.
+
+(* NaiveBlocking inside the scope: a tandem, node 2 has room for one customer (arrivals every 2 ticks, services of 3): customers
+   are blocked at node 1 again and again; every hypothesis of the theorem is checked by computation along 30 events *)
+Definition b2_cf : config :=
+  mkCfg 1
+    [ mkNcfg None None 0 SFixed 0 false [false] 0;
+      mkNcfg (Some 1) None 0 SFixed 0 false [false] 0 ]
+    [0] 1 None [ RtNR [RDirect 2; RLeave] ] [ [None; None] ] false [ [false] ].
+Definition b2_s0 : sim :=
+  mkSim 1 0 (mkArr 0 0 [[Some 1]; [None]] 1 0 (Some 1)) [x_node 1 1 [x_srv 1] 1; x_node 2 1 [x_srv 1] 1] [] 0 0 [] x_nd [] [[0; 0]].
+Definition b2_d : draws := mkDraws [2] [1] [3; 3] [0; 0] [] [].
+Example b2_hyps : scope_int b2_cf = true /\ wfx2_b b2_s0 = true /\ noint2_b b2_s0 = true /\ nextunbl_run_b b2_cf b2_s0 (repeat b2_d 30) = true.
+Proof. vm_compute. repeat split; reflexivity. Qed.
+Example b2_blocked6 : exists s6, run_many b2_cf b2_s0 (repeat b2_d 6) = Ok s6 /\ nb_true s6 = [[2; 1]; [1; 0]] /\
+  calls_many b2_cf b2_s0 (repeat b2_d 6) = [Acc 1 0; Acc 1 0; Rel 1 2 1 0 false; Acc 2 0; Acc 1 0; Acc 1 0; Blk 1 2 2 0].
+Proof. eexists. split; [vm_compute; reflexivity|]. vm_compute. split; reflexivity. Qed.
+Example b2_run30 : exists s', run_many b2_cf b2_s0 (repeat b2_d 30) = Ok s' /\
+  orun nb_step (calls_many b2_cf b2_s0 (repeat b2_d 30)) (nb_true b2_s0) = Some (nb_true s').
+Proof.
+  destruct (run_many b2_cf b2_s0 (repeat b2_d 30)) as [s'| |] eqn:E; [|vm_compute in E; discriminate|vm_compute in E; discriminate].
+  exists s'. split; [reflexivity|]. destruct b2_hyps as (H1 & H2 & H3 & H4).
+  exact (proj2 (proj2 (run_many_naive_blocking2_partial b2_cf H1 _ _ _ (wfx2_b_sound _ H2) (noint2_b_sound _ H3) (nextunbl_run_b_sound _ _ _ H4) E))).
+Qed.
+(* the two refutations above are outside: F-02b violates scope_int, F-02a violates NextUnbl before its last event *)
+Example refutations_outside : scope_int r4_cf = false /\ scope_int a2_cf = true /\ nextunbl_run_b a2_cf a2_s0 a2_ds = false.
+Proof. vm_compute. repeat split; reflexivity. Qed.
+
+(* the first example (reneging, priority pre-emption `reroute`) is inside the scope as well: 40 events *)
+Example tk_nb40 : exists s', run_many tk_cf tk_s0 (repeat tk_d 40) = Ok s' /\
+  orun nb_step (calls_many tk_cf tk_s0 (repeat tk_d 40)) (nb_true tk_s0) = Some (nb_true s').
+Proof.
+  destruct (run_many tk_cf tk_s0 (repeat tk_d 40)) as [s'| |] eqn:E; [|vm_compute in E; discriminate|vm_compute in E; discriminate].
+  exists s'. split; [reflexivity|].
+  assert (H1 : scope_int tk_cf = true) by (vm_compute; reflexivity).
+  assert (H2 : wfx2_b tk_s0 = true) by (vm_compute; reflexivity).
+  assert (H3 : noint2_b tk_s0 = true) by (vm_compute; reflexivity).
+  assert (H4 : nextunbl_run_b tk_cf tk_s0 (repeat tk_d 40) = true) by (vm_compute; reflexivity).
+  exact (proj2 (proj2 (run_many_naive_blocking2_partial tk_cf H1 _ _ _ (wfx2_b_sound _ H2) (noint2_b_sound _ H3) (nextunbl_run_b_sound _ _ _ H4) E))).
+Qed.
+
+Print Assumptions er_event_step.
+Print Assumptions event_step_trackers2.
+Print Assumptions run_many_trackers2.
+Print Assumptions never_negative2.
+Print Assumptions idx2_b_sound.
+Print Assumptions tk_fold16.
+Print Assumptions tk_run40.
+Print Assumptions naive_blocking_refuted_F02b.
+Print Assumptions naive_blocking_refuted_F02a.
+Print Assumptions class_matrix_refuted_F02a.
+Print Assumptions event_step_naive_blocking2_partial.
+Print Assumptions run_many_naive_blocking2_partial.
+Print Assumptions nextunbl_run_b_sound.
+Print Assumptions noint2_b_sound.
+Print Assumptions b2_run30.
+Print Assumptions refutations_outside.
+Print Assumptions run_many_subset_grouped2.
+Print Assumptions run_many_rowsums2.
+Print Assumptions naive_blocking_never_negative2.
+Print Assumptions tk_nb40.
